@@ -224,13 +224,31 @@ def clause_extension_wiring(prog, rep):
                 continue
             foreign = set()
             nsw = 0
-            locs = A.copy_sources(fr0, o["p"][0]) if hasattr(A, "copy_sources") else {o["p"][0]}
-            locs = set(x for x in locs if isinstance(x, int)) | {o["p"][0]}
+            # where the field's value is made: `None` constructions on one side, a `Some` construction — or, through Result plumbing
+            # (`helper(raw.x, err)?`, `.try_into().map(Some)`), the call that produces the present value — on the other
             none_b, some_b = set(), set()
-            for l in locs:
+            todo, seen_l = [o["p"][0]], set()
+            PLUMB = ("branch", "map", "map_err", "ok", "ok_or", "ok_or_else", "and_then", "unwrap_or_default", "into", "from", "clone", "transpose")
+            while todo:
+                l = todo.pop()
+                if l in seen_l:
+                    continue
+                seen_l.add(l)
                 for dbb, kind, x in fr0.defs().get(l, []):
                     if kind == "stmt" and x.get("k") == "agg" and last_seg(x.get("adt")) == "Option":
                         (none_b if x.get("variant") == "None" else some_b).add(dbb)
+                    elif kind == "stmt" and x.get("k") == "agg" and last_seg(x.get("adt")) in ("Result", "ControlFlow") and x.get("variant") in ("Ok", "Continue") and x.get("o"):
+                        if "p" in x["o"][0]:
+                            todo.append(x["o"][0]["p"][0])
+                    elif kind == "stmt" and x.get("k") in ("use", "ref", "cast") and x["o"] and "p" in x["o"][0]:
+                        todo.append(x["o"][0]["p"][0])
+                    elif kind == "call" and x.dst and x.dst[0] == l:
+                        if x.name in PLUMB and x.args and "p" in x.args[0]:
+                            if x.name == "map" and any(isinstance(a.get("c"), dict) and "Some" in str(a["c"].get("fn") or a["c"].get("ty") or "") for a in x.args[1:]):
+                                some_b.add(dbb)
+                            todo.append(x.args[0]["p"][0])
+                        elif x.name in ("try_into", "try_from"):
+                            some_b.add(dbb)
             # the switches that decide between the None and the Some construction of this field
             for w in range(fr0.nblocks()):
                 t = fr0.term(w)
